@@ -139,3 +139,49 @@ Proof.
   - vm_compute. reflexivity.
   - vm_compute. reflexivity.
 Qed.
+
+(* ---- a concrete, non-trivial, well-formed DPoS key frame (non-vacuity of the
+   hypotheses of the round-trip theorems): two node-owner keys, one pending
+   producer with a nested detailed-vote map, votes, vote rights, deposit
+   outputs with a Fixed64 of -1, withdrawable entries, all scalars non-zero *)
+Definition h21 (x : N) : bytes := repeat x 21.
+Definition h32 (x : N) : bytes := repeat x 32.
+
+Definition ty {A} (c : codec A) : Type := A.
+
+Definition ex_producer : ty producer :=
+  (([2;1;1], ([3;1;1], ([110;49], ([117], (7, ([110], (9, [5;5]))))))),
+   (1, (2, (100, (0, (0, (0, (0, (5, (6, (7,
+   ([(h21 1, [(h32 2, (h21 1, (h32 2, (100, (0, (1, [([3;1;1], (50, 1000))]))))))])],
+   ([], (500, (600, (h21 9, (true, (1, (2, (3, (4, (5, false)))))))))))))))))))))).
+
+Definition ex_skf : ty dpos_state_key_frame :=
+  ([([97], [98]); ([99], [100])], ([], ([], ([([111;49], ex_producer)], ([], ([], ([], ([], ([], ([],
+   ([([118], tt)], ([], ([(h21 1, 42)], ([], ([], ([([100], 18446744073709551615)], ([], ([], ([],
+   ([(h32 1, (h21 33, 12345))], ([], ([(h32 3, (h21 33, 1))], ([], ([], ([], ([], ([],
+   ([120], (1, (2, (3, (4, (1, (5, (true, (false, (true, (false, (6, (7, (8, 4294967295))))))))))))))))))))))))))))))))))))))))).
+
+Ltac wf_tac :=
+  repeat match goal with
+  | |- _ /\ _ => split
+  | |- True => exact I
+  | |- Forall _ [] => constructor
+  | |- Forall _ (_ :: _) => constructor
+  | |- StronglySorted _ [] => constructor
+  | |- StronglySorted _ (_ :: _) => constructor
+  | |- klt _ _ _ => vm_compute; reflexivity
+  | |- (_ < _)%N => vm_compute; reflexivity
+  | |- (_ <= _)%N => vm_compute; discriminate
+  | |- @eq nat _ _ => vm_compute; reflexivity
+  | |- _ => progress cbn [wf c_pair c_map c_set c_list c_uint c_bool c_varuint c_fixed c_varbytes c_unit c_string fst snd
+                          dpos_state_key_frame producer producer_info detailed_vote votes_lock nft_info output_info
+                          smap sset m168 m256 set168 set256 u8 u16 u32 u64 h168 h256 ex_skf ex_producer]
+  end.
+
+Lemma ex_skf_wf : wf dpos_state_key_frame ex_skf.
+Proof. wf_tac. Qed.
+
+Lemma ex_skf_roundtrip :
+  dec dpos_state_key_frame (enc dpos_state_key_frame ex_skf) = Some (ex_skf, []) /\
+  (300 <? N.of_nat (length (enc dpos_state_key_frame ex_skf))) = true.
+Proof. vm_compute. split; reflexivity. Qed.
